@@ -55,6 +55,13 @@ def shard_fn(shard, nshards, seed, tier, exe, npairs):
                         ref = nest(rng, m, shape if shape != "r" else "x", "0", via)
                         t = nest(rng, m, shape if shape != "r" else "x", leaf, via)
                         add(D, t, rng.choice([0, 0, 1, 3]), "boundary-ext", ("as", ref, leaf), flags=0)
+                    if rng.random() < (0.25 if tier == "quick" else 1.0):
+                        # an EMPTY container at the boundary that holds a comment (default mode): it encloses no value, so it counts exactly like "[]" / "{}"
+                        leaf = rng.choice(["[/*c*/]", "{/*c*/}", "[//c\n]", "{ /**/ }", "[/*a*//*b*/]", "[\n//x\n//y\n]"])
+                        ref = nest(rng, m, shape if shape != "r" else "x", leaf[0] + {"[": "]", "{": "}"}[leaf[0]], via)
+                        t = nest(rng, m, shape if shape != "r" else "x", leaf, via)
+                        add(D, t, rng.choice([0, 0, 1, 3]), "boundary-ext", ("as", ref, leaf), flags=0)
+                        sh.count("empty_containers_holding_a_comment_at_the_boundary")
                     if m < D and rng.random() < (0.3 if tier == "quick" else 1.0):
                         # a document WITHIN the limit, cut short anywhere (the NUL follows): whatever the error is, it cannot be "nesting too deep"
                         t = nest(rng, m, shape, rng.choice(["0", '"s"', "null", "true"]), via)   # (a scalar leaf: a container leaf would be one level more)
@@ -82,6 +89,13 @@ def shard_fn(shard, nshards, seed, tier, exe, npairs):
                 if m <= D:
                     add(D, nest(rng, m, shape, "0", "only"), rng.choice([0, 0, 4096]), "boundary")
         sh.count("limits_of_10001_and_more")
+    # limits whose level-stack size no longer fits 31 / 32 bits (2^26+1 and 2^27+1 records of 32 bytes; thorough: 2^28+1): the tokener either cannot be had (no memory: not asserted)
+    # or honours its limit -- a document nested a few thousand deep is accepted, with nothing written outside the stack
+    if 6 <= shard < (10 if tier == "thorough" else 9):
+        D = [(1 << 26) + 1, (1 << 27) + 1, 1 << 27, (1 << 28) + 1][shard - 6]
+        for shape, m in (("a", 3000), ("x", 7000), ("o", 40)):
+            add(D, nest(rng, m, shape, "0", "only"), 0, "boundary", flags=0)
+        sh.count("limits_of_2^26_and_more")
     gens = {}
     for _ in range(npairs // nshards):
         D = rng.choice(list(range(1, 41)) + [64])
@@ -174,6 +188,9 @@ def shard_fn(shard, nshards, seed, tier, exe, npairs):
         D, text, chunk, kind, group = meta[cid]
         ln = lines[0]
         f = ln.split(" ", 7)
+        if ln.startswith("= notok") and D > 10 ** 6:
+            sh.count("huge_limit_not_granted_for_lack_of_memory")
+            continue
         if f[0] != "=" or len(f) < 8:
             raise core.Inconclusive("bad driver line: " + ln[:200])
         err, end, nonnull = int(f[1]), int(f[2]), int(f[3])
